@@ -28,7 +28,7 @@ MODELLED = {
     "dlog": "X_dlog", "com_eq": "X_com_eq", "com_enc_eq": "X_com_enc_eq", "com_mult": "X_com_mult",
     "aggregate_dlog": "X_aggregate_dlog", "and(dlog,com_eq)": "X_and_dlog_com_eq",
     "replicate(dlog)": "X_replicate_dlog", "com_lin": "X_com_lin", "com_eq_different_groups": "X_com_eq_diff",
-    "enc_trans": "X_enc_trans", "com_ineq/com_mult": "X_com_mult",
+    "enc_trans": "X_enc_trans", "com_ineq/com_mult": "X_com_mult", "vcom_eq": "X_vcom_eq",
 }
 PREAMBLE = ("From Coq Require Import ZArith NArith List.\n"
             "From CB Require Import Crypto.Alg Crypto.Transcript Crypto.SigmaGeneric Crypto.SigmaCodec Crypto.SigmaExec Crypto.Sigma_com_ineq.\n"
@@ -363,6 +363,8 @@ def run(ctx):
             key = "%s/n=%s/%s/%s" % (cs["p"], cs.get("n"), cs.get("variant"), cs.get("k"))
             if kind_ == "honest":
                 n_corr += 1
+                if t is None and cs["ver"] is not True:
+                    continue  # model and implementation both reject this prover output (KF-C07-3: vcom_eq with n = 0)
                 if t is None or len(t[0]) != 3 or len(t[1]) != 2:
                     viol({"case": cs, "model": str(t)[:300]}, "%s: the model rejects a proof the implementation produced and accepts" % key)
                     continue
@@ -421,6 +423,15 @@ def run(ctx):
                 ctx.known_finding("KF-C07-2", "ComEncEq::public omits encryption_in_exponent_generator: a proof whose response z_2 is 0 verifies for every value of that field")
             else:
                 viol({"replay": g}, "com_enc_eq: proof accepted after altering encryption_in_exponent_generator")
+
+    for kd in ("v1", "legacy"):
+        g = fnd.get("vcom_eq_key_mismatch:" + kd)
+        if not g:
+            viol({"layer": "findings replay", "output": outf[-800:]}, "findings replay produced no vcom_eq_key_mismatch record")
+        elif g["result"].get("accepted") is not False and "parse_error" not in g["result"]:
+            # repaired by /repo commit 82fae784a (known_findings.json "fixed"): acceptance is a regression
+            viol({"replay": g, "theorem": "vcom_eq_checks_every_commitment"},
+                 "vcom_eq: a proof whose response map tis is keyed {1} while comms is keyed {0} is accepted: the individual commitment C_0 is never checked")
 
     ctx.cov["evaluations"] = len(cases) + n_pert + n_corr + n_pert_corr
     ctx.cov["traces_validated_against_impl"] = n_corr + n_pert_corr
